@@ -126,13 +126,13 @@ theorem insertAll_append {α} (d l : List (String × α))
 theorem construct_input_dict (kvs : List (String × Val)) (v : Val) (h : lookup "input" kvs = some v) :
     construct "Input" [("input_type", .dict kvs)]
       = .ok (Node.mk "Input" [] (.dict kvs) (typeDict "output" v) (.dict []) [] []) := by
-  simp [construct, Generated.classFields, lookup, bindKwargs, hasKey, postInit, parseShapeArgument, getItem, h,
+  simp [construct, Generated.classFields, lookup, bindKwargs, bindAll, bindOne, hasKey, postInit, parseShapeArgument, getItem, h,
     bind, Except.bind, pure, Except.pure, List.mapM_cons, List.mapM_nil]
 
 theorem construct_output_dict (kvs : List (String × Val)) (v : Val) (h : lookup "output" kvs = some v) :
     construct "Output" [("output_type", .dict kvs)]
       = .ok (Node.mk "Output" [] (typeDict "input" v) (.dict kvs) (.dict []) [] []) := by
-  simp [construct, Generated.classFields, lookup, bindKwargs, hasKey, postInit, parseShapeArgument, getItem, h,
+  simp [construct, Generated.classFields, lookup, bindKwargs, bindAll, bindOne, hasKey, postInit, parseShapeArgument, getItem, h,
     bind, Except.bind, pure, Except.pure, List.mapM_cons, List.mapM_nil]
 
 theorem kind_of_lower_input (k : String) (h : k ∈ Generated.whitelist) (hl : k.toLower = "input") : k = "Input" := by
